@@ -9,6 +9,7 @@ import (
 	"math/big"
 	"sort"
 	"strings"
+	"time"
 
 	"github.com/agglayer/aggkit/aggsender/flows"
 	aggsendertypes "github.com/agglayer/aggkit/aggsender/types"
@@ -190,7 +191,22 @@ func prefixSizes(p *Params) []uint64 {
 	return sizes
 }
 
-func run(in In) (o Out) {
+// run executes one case under a watchdog: a function that does not return within caseTimeout (the unchanged code needs
+// microseconds) is observed as the error "timeout" (its goroutine is abandoned).
+const caseTimeout = 10 * time.Second
+
+func run(in In) Out {
+	done := make(chan Out, 1)
+	go func() { done <- runCase(in) }()
+	select {
+	case o := <-done:
+		return o
+	case <-time.After(caseTimeout):
+		return Out{In: in, Sizes: []uint64{}, Err: "timeout"}
+	}
+}
+
+func runCase(in In) (o Out) {
 	o = Out{In: in, Sizes: []uint64{}}
 	defer func() {
 		if r := recover(); r != nil {
@@ -472,13 +488,13 @@ func gen(f *hlib.Flags) []In {
 	}
 	// --- fixed boundary certificates
 	fixed := []*Params{
-		{From: 0, To: 0, Type: 1, Bridges: []Ev{{B: 0}, {B: 0}}},                                 // block 0 only, 2 bridges: exact size 256.0
+		{From: 0, To: 0, Type: 1, Bridges: []Ev{{B: 0}, {B: 0}}},                                       // block 0 only, 2 bridges: exact size 256.0
 		{From: 0, To: 3, Type: 1, Bridges: []Ev{{B: 0}, {B: 1}, {B: 1}, {B: 3}}, Claims: []Ev{{B: 2}}}, // starts at block 0
 		{From: maxU64 - 2, To: maxU64, Type: 2, Bridges: []Ev{{B: maxU64 - 2}, {B: maxU64}}, Claims: []Ev{{B: maxU64 - 1}, {B: maxU64}}},
-		{From: 5, To: 9, Type: 1},                                                                 // no events at all
-		{From: 5, To: 9, Type: 2, Claims: []Ev{{B: 6}, {B: 6}, {B: 7}, {B: 9}, {B: 9}}},          // claims only, fep: 5 claims = integer
-		{From: 10, To: 12, Type: 1, Bridges: []Ev{{B: 12, M: 100000}}},                           // only the last block is large
-		{From: 10, To: 12, Type: 1, Bridges: []Ev{{B: 10, M: 100000}, {B: 11}, {B: 12}}},         // first block alone exceeds
+		{From: 5, To: 9, Type: 1}, // no events at all
+		{From: 5, To: 9, Type: 2, Claims: []Ev{{B: 6}, {B: 6}, {B: 7}, {B: 9}, {B: 9}}},  // claims only, fep: 5 claims = integer
+		{From: 10, To: 12, Type: 1, Bridges: []Ev{{B: 12, M: 100000}}},                   // only the last block is large
+		{From: 10, To: 12, Type: 1, Bridges: []Ev{{B: 10, M: 100000}, {B: 11}, {B: 12}}}, // first block alone exceeds
 	}
 	for _, p := range fixed {
 		finish(rng, p, false)
